@@ -15,11 +15,17 @@ for d in sorted(glob.glob('seeded/%s/m*'%pat)):
         m['check_result']='caught'
         sigs=['(not by this property\'s check: reported by ./check %s, which owns the clause)'%other]
         caught=True
+    elif not caught and os.path.exists(d+'/neutralised.txt'):
+        # the change no longer breaks the property on the current tree (a later repair of the library made it harmless):
+        # its demonstration passes with the change applied; the check is rightly silent
+        m['check_result']='neutralised'
+        m['neutralised']=open(d+'/neutralised.txt').read().strip()
     else:
         m['check_result']='caught' if caught else 'missed'
-    m['detected_by']=('oracle signatures: '+', '.join(sorted(set(sigs)))[:400]) if sigs else ('correspondence / proof tie broken (no-failing-input-found)' if caught else 'not detected')
+    m['detected_by']=('oracle signatures: '+', '.join(sorted(set(sigs)))[:400]) if sigs else ('correspondence / proof tie broken (no-failing-input-found)' if caught else ('— (no longer a violation, see history)' if m['check_result']=='neutralised' else 'not detected'))
     m['confirmed']=open(d+'/confirmed.txt').read().strip().split('\n')[-1] if os.path.exists(d+'/confirmed.txt') else 'unknown'
     m['what_i_ran']="lib/seedconfirm.sh (scratch worktree: demo passes unmodified; go build ./... and the package's existing tests with the change; demo fails with the change) and lib/seedtest.sh (./check %s quick with VERIF_REPO = scratch worktree carrying the change)"%d.split('/')[1]
     if os.path.exists(d+'/history.txt'): m['history']=open(d+'/history.txt').read().strip()
+    if m['check_result']=='neutralised': m['history']=(m.get('history','')+' LATER: '+m['neutralised']).strip()
     json.dump(m,open(mp,'w'),indent=1)
     print(d,m['check_result'],m['confirmed'])
